@@ -8,11 +8,11 @@ from vlib import *
 import gen_graphs as gg
 
 FIELDS = {
-    "C01": ["paths", "subset", "once", "complete"],
-    "C02": ["verdicts", "asserts"],
-    "C03": ["witness"],
-    "C11": ["ev_sound", "ev_exact"],
-    "C13": ["bfs_order", "shortest"],
+    "C01": ["paths", "subset", "once", "complete", "no_panic"],
+    "C02": ["verdicts", "asserts", "no_panic"],
+    "C03": ["witness", "no_panic"],
+    "C11": ["ev_sound", "ev_exact", "no_panic"],
+    "C13": ["bfs_order", "shortest", "no_panic"],
 }
 
 
@@ -351,7 +351,7 @@ def c10(res):
         c.append(gg.base_cfg("dfs", 1))
         c.append(gg.base_cfg("sim", 1, symmetry=True, target_states=40, seed=rng.randint(0, 2 ** 32)))
         return c
-    run_family(res, "C10", ["sym_cover", "verdicts", "witness", "paths", "subset"], graphs, cfgs)
+    run_family(res, "C10", ["sym_cover", "verdicts", "witness", "paths", "subset", "no_panic"], graphs, cfgs)
     if not q:
         example_2pc(res, sizes=(), sym_sizes=(3, 5))
     res.rule = ("(a) from_values_to_sort / reindex / rewrite on all vectors (with ties) and 13 container kinds under all plans; "
